@@ -125,6 +125,13 @@ CHECKS.update({
             'scaling is checked by shrinking/enlarging a true system and requiring the true system back, with rotations bit-identical and '
             'inputs deep-compared.',
             'Rays synthesised with plain rotation-matrix algebra; noisy layouts only check rigidity.'),
+    'C09': ('exploration', 'DESIGN.md 3/C09', 'rooms',
+            'Hypothesis-generated room structures (stations, ids, poses, visibility chains, time-stamp groupings) + seeded geometry with independently synthesised sweep angles; truth-comparison oracle (1 mm / 1 mrad), IPPE containment, solver fixed point, matcher re-implementation, linkability via union-find; mechanism-classified known findings with a rate bound',
+            'Rooms in the stated envelope are generated with exact measurements and pushed through match -> estimate -> solve; results are '
+            'compared with the truth in the frame of the first sample, unlinkable systems must raise, linkable ones must not; failures are '
+            'classified by mechanism (mirrored initial estimate, evaluation cap, mirror cluster) and only those listed are tolerated, with a '
+            '10 % rate bound on the mirrored class.',
+            'Measurement synthesis by plain rotation algebra; three listed known findings (2-5 % of rooms).'),
 })
 
 ALL = ['C%02d' % i for i in range(1, 21)]
@@ -172,6 +179,8 @@ def main():
              'kind_free_text': 'fake Crazyradio USB dongle (pyusb shaped), lock-step control, safelink peer model'},
             {'name': 'memdev', 'path': 'vlib/memdev.py', 'serves_properties': ['C06', 'C14'],
              'kind_free_text': 'memory-port device model and pumped thread-free Crazyflie stand-in'},
+            {'name': 'rooms', 'path': 'vlib/rooms.py', 'serves_properties': ['C09'],
+             'kind_free_text': 'lighthouse room generator and independent sweep-angle synthesis'},
             {'name': 'runner', 'path': 'vlib/runner.py', 'serves_properties': sorted(claimed),
              'kind_free_text': 'Hypothesis driver / exhaustive enumerator, root-cause bucketing, shrinking budget, replay + evidence writer'},
         ],
